@@ -121,7 +121,7 @@ class SyncModel:
                                     return True
         return False
 
-    def check_sites(self, body, bb):
+    def check_sites(self, body, bb, strict=False):
         """blocks in which the Result produced by the call at bb is checked (`?`, unwrap, expect) ; None
         when the callee is infallible ; [] when it is never checked ; ['ret'] when it is returned as is"""
         t = body.term(bb)
@@ -155,15 +155,16 @@ class SyncModel:
                         out.append("ret")
                     elif not dest.get("p"):
                         go(dest["l"])
-                elif kind == "discr":
+                elif kind == "discr" and not strict:
                     out.append(b)
 
         go(d["l"])
         return out
 
-    def checked_before(self, body, bb, P):
-        """the result of the call at bb is checked on every success path from bb to P"""
-        cs = self.check_sites(body, bb)
+    def checked_before(self, body, bb, P, strict=False):
+        """the result of the call at bb is checked on every success path from bb to P (strict: only by `?` / unwrap /
+        expect, where the error cannot continue; a `match` on the result does not count)"""
+        cs = self.check_sites(body, bb, strict)
         if cs is None:
             return True
         for c in cs:
